@@ -208,6 +208,10 @@ func extraGens() []extraGen {
 	gs := rapid.Make[xStruct]()
 	gstr := rapid.StringOfN(rapid.RuneFrom([]rune{'a', 'é', '世', '😀'}), 2, 5, 9)
 	gre := rapid.StringMatching(`[a-c]{2,4}(x|yz)*\d?`)
+	// regexps whose generated candidates can fail the final match, so that tries are rejected and retried
+	greB := rapid.StringMatching(`a\b.`)
+	greW := rapid.StringMatching(`[a-c ]{1,3}\b[a-c ]{1,2}`)
+	greS := rapid.SliceOfBytesMatching(`[ab ]{1,3}\b[ab ]`)
 	gf := rapid.Float64Range(-1e3, 1e300)
 	gd := rapid.SliceOfNDistinct(rapid.SliceOfN(rapid.IntRange(0, 1), 0, 2), 2, 4, func(x []int) string { return fmt.Sprint(x) })
 	gmm := rapid.MapOfN(rapid.StringN(0, 1, 1), rapid.Make[map[bool]bool](), 1, 3)
@@ -229,6 +233,9 @@ func extraGens() []extraGen {
 		}},
 		{"StringOfN(multi-byte,2,5,9)", func(t *rapid.T) string { return show(gstr.Draw(t, "v")) }},
 		{"StringMatching", func(t *rapid.T) string { return show(gre.Draw(t, "v")) }},
+		{"StringMatching(a\\b.)", func(t *rapid.T) string { return show(greB.Draw(t, "v")) }},
+		{"StringMatching(word boundary)", func(t *rapid.T) string { return show(greW.Draw(t, "v")) }},
+		{"SliceOfBytesMatching(word boundary)", func(t *rapid.T) string { return show(greS.Draw(t, "v")) }},
 		{"Float64Range", func(t *rapid.T) string { return fmt.Sprintf("%x", gf.Draw(t, "v")) }},
 		{"SliceOfNDistinct(SliceOfN)", func(t *rapid.T) string { return show(gd.Draw(t, "v")) }},
 		{"MapOfN(StringN, Make[map])", func(t *rapid.T) string {
